@@ -1,6 +1,6 @@
 (** * C14: generated aspiration levels follow the documented series and end.
     All theorems are on the exact-rational instance [NumQc]. *)
-From Coq Require Import ZArith QArith Qcanon Qround Qabs Bool List String Lia Lqa Psatz.
+From Coq Require Import ZArith QArith Qcanon Qround Qabs Bool List String Lia Lqa.
 From RDM Require Import Base.Num Base.NumQc Base.Util Model.Data Model.Levels Proofs.RankFacts.
 Import ListNotations.
 Local Open Scope string_scope.
